@@ -142,6 +142,9 @@ func TestVerifC17Transport(t *testing.T) {
 	W, P := int64(pongWait), int64(pingPeriod)
 	vEmit(vCase{Class: "consts-scaled", Info: map[string]interface{}{"pong_wait": W, "ping_period": P, "second": int64(vSecond)}})
 	slack := int64(60 * time.Millisecond)
+	if W/8 > slack {
+		slack = W / 8 // scheduling latency of a loaded machine, in proportion to the scaled constants
+	}
 	n := 10
 	if vThorough() {
 		n = 40
